@@ -275,6 +275,30 @@ pub mod unit_stats {
     //@|     lemma_sorted_desc(s, d0);
     //@| }
     //@end
+
+    /// the run summary every progress mode reports: the summaries of the split R-hat and ESS vectors of exactly this sample
+    pub open spec fn runstats_post(x: Seq<Seq<Seq<Fl>>>, c: int, n: int, d: int, rhat: BasicStats, ess: BasicStats) -> bool {
+        exists |rh: Seq<Fl>, es: Seq<Fl>| #![trigger summary_post(rh, rhat), summary_post(es, ess)] split_rhat_post(x, c, n, d, rh) && es.len() == d && summary_post(rh, rhat) && summary_post(es, ess)
+    }
+    impl RunStats {
+        pub fn from_f32_view(sample: ArrayView3<Fl>) -> (r: Self)
+            requires fin3(v3(sample)), dim3(sample).0 >= 1, 2 <= dim3(sample).1, dim3(sample).1 / 2 <= i32::MAX, dim3(sample).2 >= 1
+            ensures runstats_post(v3(sample), dim3(sample).0, dim3(sample).1, dim3(sample).2, r.rhat, r.ess)      // [C10.run_summary_is_computed_from_exactly_the_given_sample]
+        //@body id=runstats_from_f32_view file=src/stats.rs impl_self=RunStats name=from_f32_view props=C10,C11
+        //@sig fn from_f32_view (sample : ArrayView3 < f32 >) -> Self
+        //@rules R-f64
+        //@anchor a0 scope=fn pos=after match="^let \\(rhat , ess\\) ="
+        //@| let ghost rh = a1(rhat);
+        //@| let ghost es = a1(ess);
+        //@anchor a1 scope=fn pos=before match="^RunStats \\{"
+        //@| proof {
+        //@|     assert(split_rhat_post(v3(sample), dim3(sample).0, dim3(sample).1, dim3(sample).2, rh));
+        //@|     assert(es.len() == dim3(sample).2);
+        //@|     assert(summary_post(rh, rhat) && summary_post(es, ess));
+        //@|     assert(runstats_post(v3(sample), dim3(sample).0, dim3(sample).1, dim3(sample).2, rhat, ess));
+        //@| }
+        //@end
+    }
 }
 } // verus!
 fn main() {}
